@@ -89,10 +89,13 @@ static bool specFromJson(const std::string& txt, RunSpec& s, std::string& sig, s
 
 // ------------------------------------------------------------------ crash / hang reporting
 static volatile uint64_t cur_seed = 0; static volatile long cur_index = -1; static const char* cur_phase = "search";
-static volatile int tainted = 0;   // a violation was already found in this process: later crashes may be after-effects of abandoned, memory-unsafe runs
+static volatile int tainted = 0;
+static volatile unsigned long long g_runs_done = 0, g_nontrivial_done = 0;   // a violation was already found in this process: later crashes may be after-effects of abandoned, memory-unsafe runs
 static void crashHandler(int sig) {
   char b[200]; int n = snprintf(b, sizeof b, "\n%s signal=%d index=%ld seed=%llu phase=%s\n", tainted ? "CRASH-TAINTED" : "CRASH", sig, (long)cur_index, (unsigned long long)cur_seed, cur_phase);
-  (void)!write(1, b, n); _exit(3);
+  (void)!write(1, b, n);
+  if (tainted) { n = snprintf(b, sizeof b, "STATS {\"runs\":%llu,\"nontrivial\":%llu,\"distinct_nontrivial\":0,\"steps\":0,\"switches\":0,\"simtime_s\":0,\"wall_s\":0,\"budget_exhausted\":0,\"faults\":{},\"probes\":{\"worker_died_after_violation\":1},\"violation_classes\":{},\"samples\":[]}\n", g_runs_done, g_nontrivial_done); (void)!write(1, b, n); }
+  _exit(3);
 }
 static void installHandlers() {
   static char alt[65536]; stack_t ss; ss.ss_sp = alt; ss.ss_size = sizeof alt; ss.ss_flags = 0; sigaltstack(&ss, 0);
@@ -268,7 +271,7 @@ int main(int argc, char** argv, const Harness& h) {
     return r.violated ? 1 : 0;
   }
 
-  Agg agg; double t0 = wallNow(); long ndiverge = 0; int cands = 0; std::set<std::string> reported;
+  Agg agg; double t0 = wallNow(); long ndiverge = 0; bool stopAfterMemoryViolation = false; int cands = 0; std::set<std::string> reported;
   std::vector<std::string> samples;
   long first = (one >= 0) ? one : offset, last = (one >= 0) ? one + 1 : runs, step = (one >= 0) ? 1 : stride;
   for (long i = first; i < last; i += step) {
@@ -281,7 +284,7 @@ int main(int argc, char** argv, const Harness& h) {
     Result r = h.execute(spec, dbg);
     if (getenv("SIM_TWICE")) { Result q = h.execute(spec, dbg); if (q.hash != r.hash || q.violated != r.violated) { if (dbg) { for (auto& l : r.tail) printf(" A %s\n", l.c_str()); for (auto& l : q.tail) printf(" B %s\n", l.c_str()); } printf("DIVERGE index=%ld seed=%llu first=%llu second=%llu\n", i, (unsigned long long)spec.seed, (unsigned long long)r.hash, (unsigned long long)q.hash); ndiverge++; } }
     if (getenv("SIM_REPLAYCHECK")) { RunSpec rs = spec; rs.replay = true; rs.decisions = r.decisions; rs.preemptions = r.preemptions; Result q = h.execute(rs, dbg); if (q.hash != r.hash || q.violated != r.violated) { if (dbg) { for (auto& l : r.tail) printf(" A %s\n", l.c_str()); for (auto& l : q.tail) printf(" B %s\n", l.c_str()); printf("%s\n", specToJson(h, rs, nullptr, false).c_str()); } if (getenv("SIM_TRACEDIFF")) sim::traceDumpDiff(); printf("REPLAY-DIVERGE index=%ld seed=%llu search=%llu replay=%llu\n", i, (unsigned long long)spec.seed, (unsigned long long)r.hash, (unsigned long long)q.hash); ndiverge++; } }
-    agg.add(r);
+    agg.add(r); g_runs_done = agg.runs; g_nontrivial_done = agg.nontrivial;
     if (samples.size() < 3 && r.nontrivial) { RunSpec ss = spec; samples.push_back(specToJson(h, ss, nullptr, false)); }
     std::vector<std::pair<RunSpec, Result>> viol;
     if (r.violated) viol.push_back({spec, r});
@@ -296,7 +299,9 @@ int main(int argc, char** argv, const Harness& h) {
       if (path.empty()) printf("MACHINERY %s index=%ld seed=%llu cls=%s\n", status.c_str(), i, (unsigned long long)spec.seed, vr.second.cls.c_str());
       else { printf("CANDIDATE path=%s index=%ld signature=%s\n", path.c_str(), i, vr.second.cls.c_str()); cands++; }
       if (verbose) printf("DETAIL %s\n", vr.second.detail.c_str());
+      if (vr.second.cls.compare(0, 4, "mem/") == 0) stopAfterMemoryViolation = true;
     }
+    if (stopAfterMemoryViolation) { printf("NOTE worker stops after a memory-safety violation (process state may be corrupt)\n"); break; }
   }
   alarm(0);
   if (getenv("SIM_REPLAYCHECK")) printf("REPLAYCHECK diverged=%ld of %llu\n", ndiverge, (unsigned long long)agg.runs);
